@@ -53,7 +53,7 @@ pub fn doc_field(k: usize) -> P {
         // an adjacent group whose value is matched by `any` (KEY=VAL) and has its own help row
         19 => P::Adj(vec![
             P::ReqFlag(h(Names::long("set"), "set a key")),
-            P::AnyKv { metavar: "KEY=VAL".into(), help: Some(DocSpec::plain("key value pair")) },
+            P::AnyKv { metavar: "KEY=VAL".into(), help: Some(DocSpec::plain("key value pair")), dash: false },
         ])
         .many(),
         _ => unreachable!(),
